@@ -256,6 +256,7 @@ def shards(tier):
     chains = menu.chains(2, 5 if tier == 'quick' else 6) + menu.long_chains(nmax)
     for i in range(0, len(chains), 100):
         out.append({'mode': 'direct', 'chains': chains[i:i + 100]})
+    out.append({'mode': 'flag-source'})
     return out
 
 
@@ -298,8 +299,58 @@ def check_direct(acc, chain_l):
         acc.outcomes[('direct', len(m.elements), locking)] += 1
 
 
+def check_flag_source(acc):
+    """Which worm matings count: every accepted one, whichever element is the master, whatever the two helix angles.
+    Chains M - a ~ b - S with a worm stage in either orientation; worm and wheel helix angles equal or different; friction
+    grid across both thresholds.  A mating the library rejects is skipped (C10 judges that); for an accepted one the
+    powertrain is self-locking exactly when the worm gear carries the flag its mating gave it."""
+    a20 = Angle(20, 'deg')
+    for worm_drives in (True, False):
+        for bw in (5.0, 10.0):
+            for bh in (5.0, 10.0, 15.0, 20.0):
+                for f in (0.03, 0.08, 0.1, 0.12, 0.15, 0.2, 0.3):
+                    for lead in ('joint', 'flywheel'):
+                        case = {'kind': 'flag-source', 'worm_drives': worm_drives, 'beta_worm': bw, 'beta_wheel': bh, 'f': f, 'lead': lead}
+                        mot = DCMotor(name='M', inertia_moment=J1, no_load_speed=AngularSpeed(1000, 'rpm'), maximum_torque=Torque(1, 'Nm'))
+                        wg = WormGear(name='Wg', n_starts=2, inertia_moment=J1, pressure_angle=a20, helix_angle=Angle(bw, 'deg'))
+                        ww = WormWheel(name='Ww', n_teeth=30, inertia_moment=J1, pressure_angle=a20, helix_angle=Angle(bh, 'deg'))
+                        out = SpurGear(name='S', n_teeth=20, inertia_moment=J1)
+                        first, second = (wg, ww) if worm_drives else (ww, wg)
+                        acc.transitions += 1
+                        try:
+                            add_worm_gear_mating(master=first, slave=second, friction_coefficient=f)
+                        except ValueError:
+                            acc.outcomes[('flag-source', 'mating-rejected')] += 1
+                            continue
+                        head = mot
+                        if lead == 'flywheel':
+                            fl = Flywheel(name='F', inertia_moment=J1)
+                            add_fixed_joint(master=mot, slave=fl)
+                            head = fl
+                        add_fixed_joint(master=head, slave=first)
+                        add_fixed_joint(master=second, slave=out)
+                        try:
+                            pt = Powertrain(motor=mot)
+                        except Exception as ex:
+                            acc.violation('C20/flag-source/build-error', 'chain assembles', case, {'exc': repr(ex)[:200]})
+                            continue
+                        acc.executions += 1
+                        flagged = bool(wg.self_locking)
+                        acc.outcomes[('flag-source', 'worm-drives' if worm_drives else 'wheel-drives', 'equal-helix' if bw == bh else 'different-helix', flagged)] += 1
+                        acc.state(('flag-source', worm_drives, bw, bh, f, lead))
+                        if pt.self_locking is not flagged:
+                            acc.violation('C20/flag-source/' + ('worm-drives' if worm_drives else 'wheel-drives'),
+                                          'self-locking exactly when it contains a worm gear whose mating was flagged self-locking', case,
+                                          {'powertrain': pt.self_locking, 'worm_gear_flag': wg.self_locking})
+
+
 def run_shard(shard, tier):
     acc = Acc()
+    if shard['mode'] == 'flag-source':
+        check_flag_source(acc)
+        acc.sample({'mode': 'worm stage in either orientation, helix angles equal or different, friction grid'})
+        acc.cases += acc.executions
+        return acc
     if shard['mode'] == 'bfs':
         for hist in shard['hists']:
             visit(acc, hist, shard['ext'])
@@ -328,6 +379,8 @@ def replay(case):
         inspect(acc, case, objs, st, 'distinct', extra_event=case['event'])
     elif k == 'direct':
         check_direct(acc, case['chain'])
+    elif k == 'flag-source':
+        check_flag_source(acc)
     else:
         return run_shard(case['shard'], 'quick').violations
     return acc.violations
